@@ -11,3 +11,4 @@ import PC.Props.C10
 import PC.Props.C12
 import PC.Props.C18
 import PC.Props.C11
+import PC.Props.C17
